@@ -117,6 +117,16 @@ def install(ag, recorder):
             rec['norelse'] = 0
             _probe('while_stmt', sys._getframe(1), get_state, set_state, symbol_names, rec)
             R.calls.append(rec)
+            inner_test = test
+
+            def test():     # identifies the loop: the first tracer its test evaluates
+                n0 = len(R.run.log) if R.run is not None else 0
+                r = inner_test()
+                if rec['key'] == 0 and R.run is not None and len(R.run.log) > n0:
+                    rec['key'] = R.run.log[n0][1]
+                elif rec['key'] == 0:
+                    rec['key'] = -1
+                return r
         return saved['while_stmt'](test, body, get_state, set_state, symbol_names, opts)
 
     def for_stmt(iter_, extra_test, body, get_state, set_state, symbol_names, opts):
@@ -124,7 +134,8 @@ def install(ag, recorder):
         if R.probe:
             rec = base('for_stmt', len(symbol_names), 0, get_state, set_state, body, extra_test, None, opts)
             rec['norelse'] = 0
-            rec['key'] = getattr(iter_, 'serial', 0)
+            ser = getattr(iter_, 'serial', 0)
+            rec['key'] = R.run.log[ser - 1][1] if (ser and R.run is not None) else -1
             _probe('for_stmt', sys._getframe(1), get_state, set_state, symbol_names, rec)
             R.calls.append(rec)
         return saved['for_stmt'](iter_, extra_test, body, get_state, set_state, symbol_names, opts)
